@@ -25,7 +25,7 @@ Laws == LawCommutative /\ LawDeMorgan /\ LawImplies /\ LawXor /\ LawClassical /\
 (* Consequences at the level of cases: a multi-item operand always gives an *)
 (* error; commuting the operands of and/or/xor gives the same outcome.      *)
 MultiIsError ==
-  res.k # "pending" /\ (cs.l.val \in {"multi", "multibool"} \/ (cs.ctx = "binop" /\ cs.r.val \in {"multi", "multibool"})) => res.k = "err"
+  res.k # "pending" /\ (cs.l.val \in {"multi", "multibool"} \/ (cs.ctx \in {"binop"} \cup PairCtx /\ cs.r.val \in {"multi", "multibool"})) => res.k = "err"
 CommutesOnForms ==
   res.k # "pending" /\ cs.ctx = "binop" /\ cs.op \in {"and", "or", "xor"}
      => res = Expected([cs EXCEPT !.l = cs.r, !.r = cs.l])
